@@ -399,3 +399,24 @@ class WarnCatcher:
 import logging as _logging  # noqa: E402
 _logging.getLogger().addHandler(_logging.NullHandler())
 _logging.lastResort = None  # keep the library's warning off stderr; WarnCatcher still sees it
+
+
+HASH_TWIN_TOKENS = {"xc000000000000000": "xbff0000000000000", "xbff0000000000000": "xc000000000000000",
+                    "x3ff0000000000000": "x43c0000000000000", "x43c0000000000000": "x3ff0000000000000",
+                    "-2": "-1", "-1": "-2", "1": str(2 ** 61), str(2 ** 61): "1", "0": str(2 ** 61 - 1), str(2 ** 61 - 1): "0"}
+
+
+def expr_hash_twins(text: str, limit: int = 3) -> list[str]:
+    """wire forms that differ from ``text`` in one constant (or in all of them) by a value CPython hashes alike
+    (-1 and -2, 1 and 2**61, 0 and 2**61 - 1): different expressions that any table keyed by hash() confuses"""
+    toks = text.split(" ")
+    sites = [i for i, t in enumerate(toks) if i and toks[i - 1].split("@")[0].split("!")[0] == "C" and t in HASH_TWIN_TOKENS]
+    out = []
+    for i in sites[:limit]:
+        t2 = toks[:]
+        t2[i] = HASH_TWIN_TOKENS[toks[i]]
+        out.append(" ".join(t2))
+    if len(sites) > 1:
+        out.append(" ".join(HASH_TWIN_TOKENS[t] if i in sites else t for i, t in enumerate(toks)))
+    return out
+
